@@ -316,6 +316,8 @@ pub fn write_csv_par<T: Serialize + Sync>(
     let mut buffers: Vec<(usize, Vec<u8>)> = ranges
         .into_par_iter()
         .map(|(idx, start, end)| {
+            #[cfg(feature = "verif-hooks")]
+            crate::verif_hooks::on_shard("write_csv_par", idx, start, end);
             let slice = &data[start..end];
             let mut buf: Vec<u8> = Vec::with_capacity((end - start).saturating_mul(64)); // heuristic
             {
@@ -367,4 +369,11 @@ fn split_ranges(len: usize, parts: usize) -> Vec<(usize, usize, usize)> {
         start = end;
     }
     out
+}
+
+/// Read-only accessor to the private [`split_ranges`] for the verification harness.
+#[cfg(feature = "verif-hooks")]
+#[must_use]
+pub fn verif_split_ranges(len: usize, parts: usize) -> Vec<(usize, usize, usize)> {
+    split_ranges(len, parts)
 }
